@@ -16,8 +16,28 @@ theorem bind_generate_document (ft : Feat) (e : BEnv) (Γ : Ctx) (cfg : SerCfg) 
     (c : ClassId) (v : Val) (hΓ : ctxOK ft Γ = true) (hv : valOKI ft.inherit e Γ c v = true) :
     ∃ evs, generate e Γ cfg v = .ok evs ∧
       eventsTree (isDatatype Γ) evs = .ok (docOf Γ cfg (prefixMap (collectUris evs)) c v) ∧
-      parseRoot e Γ pcfg c (docOf Γ cfg (prefixMap (collectUris evs)) c v) = .ok (v, 0) :=
-  roundtrip_FN_doc ft e Γ cfg pcfg c v hΓ hv
+      parseRoot e Γ pcfg c (docOf Γ cfg (prefixMap (collectUris evs)) c v) = .ok (v, 0) := by
+  obtain ⟨evs, h1, h2, h3, _⟩ := roundtrip_FN_doc ft e Γ cfg pcfg c v hΓ hv
+  exact ⟨evs, h1, h2, h3⟩
+
+/-- **C01, no mixed content is written.** The document of an instance of the fragments has no tail
+text anywhere, and every element carries the one prefix map of the document (`plain`): character
+data only occurs as the text of leaf elements and generic elements. -/
+theorem bind_document_plain (ft : Feat) (e : BEnv) (Γ : Ctx) (cfg : SerCfg)
+    (c : ClassId) (v : Val) (hΓ : ctxOK ft Γ = true) (hv : valOKI ft.inherit e Γ c v = true) :
+    ∃ evs t, generate e Γ cfg v = .ok evs ∧ eventsTree (isDatatype Γ) evs = .ok t ∧
+      plain (prefixMap (collectUris evs)) t = true := by
+  obtain ⟨evs, h1, h2, _, h4⟩ := roundtrip_FN_doc ft e Γ cfg {} c v hΓ hv
+  exact ⟨evs, _, h1, h2, h4⟩
+
+/-- **C01, serialising what was parsed gives the same events** (`serialize ∘ parse ∘ serialize =
+serialize` on the fragments) -/
+theorem bind_roundtrip_idempotent (ft : Feat) (e : BEnv) (Γ : Ctx) (cfg : SerCfg) (pcfg : ParserConfig)
+    (c : ClassId) (v : Val) (hΓ : ctxOK ft Γ = true) (hv : valOKI ft.inherit e Γ c v = true) :
+    ∃ evs t v', generate e Γ cfg v = .ok evs ∧ eventsTree (isDatatype Γ) evs = .ok t ∧
+      parseRoot e Γ pcfg c t = .ok (v', 0) ∧ generate e Γ cfg v' = .ok evs := by
+  obtain ⟨evs, t, h1, h2, h3⟩ := bind_generate_FN ft e Γ cfg pcfg c v hΓ hv
+  exact ⟨evs, t, v, h1, h2, h3, h1⟩
 
 /-- **C01, one document for every parser configuration.** The document does not depend on the
 parser configuration (it is written before any parser runs); all configurations read the same
@@ -146,6 +166,14 @@ example : ∃ evs, generate e0 Γ10 {} v10 = .ok evs ∧
     eventsTree (isDatatype Γ10) evs = .ok (docOf Γ10 {} (prefixMap (collectUris evs)) (s "Root") v10) ∧
     parseRoot e0 Γ10 {} (s "Root") (docOf Γ10 {} (prefixMap (collectUris evs)) (s "Root") v10) = .ok (v10, 0) :=
   bind_generate_document featF10 e0 Γ10 {} {} (s "Root") v10 (by decide) (by decide)
+
+example : ∃ evs t, generate e0 Γ10 {} v10 = .ok evs ∧ eventsTree (isDatatype Γ10) evs = .ok t ∧
+    plain (prefixMap (collectUris evs)) t = true :=
+  bind_document_plain featF10 e0 Γ10 {} (s "Root") v10 (by decide) (by decide)
+
+example : ∃ evs t v', generate e0 Γ10 {} v10 = .ok evs ∧ eventsTree (isDatatype Γ10) evs = .ok t ∧
+    parseRoot e0 Γ10 {} (s "Root") t = .ok (v', 0) ∧ generate e0 Γ10 {} v' = .ok evs :=
+  bind_roundtrip_idempotent featF10 e0 Γ10 {} {} (s "Root") v10 (by decide) (by decide)
 
 /-- the document function evaluated: it is the tree the abstract writer builds -/
 example : docOf Γ10 {} (prefixMap (collectUris (evsOf Γ10 v10))) (s "Root") v10 = treeOf Γ10 v10 := by rfl
